@@ -160,4 +160,21 @@ def binary (a : Nat) (op : BinOp) (x y : SVal) : Out SVal :=
     else if isFloat t then .ok ⟨.generic, 0⟩    -- float comparison: opaque
     else .ok ⟨.generic, if rel op (asSigned a x) (asSigned a y) then 1 else 0⟩
 
+
+/-- `DW_OP_convert` between integer types: the value, wrapped into the target type -/
+def convertInt (a : Nat) (v : SVal) (t : ValueType) : SVal := ⟨t, canon a t v.val⟩
+
+/-- `DW_OP_reinterpret`: the types must have the same size; the same bits read in the target type -/
+def reinterpretInt (a : Nat) (v : SVal) (t : ValueType) : Out SVal :=
+  if width a v.ty ≠ width a t then .err .rTypeMismatch else .ok ⟨t, canon a t v.val⟩
+
+/-- `DW_OP_const_type`: the first `size(t)` bytes of the block as an integer of base type `t`
+(the generic type is not a base type) -/
+def literalInt (e : Endian) (a : Nat) (t : ValueType) (bytes : Bytes) : Out SVal :=
+  match t with
+  | .generic => .err .rUnsupportedTypeOperation
+  | t =>
+    let n := width a t / 8
+    if n ≤ bytes.length then .ok ⟨t, canon a t (Ints.fromBytes e (bytes.take n))⟩ else .err .rUnexpectedEof
+
 end Gimli.Spec.Expr
